@@ -2,7 +2,7 @@
 # runs every registered check once (sequentially) and prints rc + wall time; usage: run_all.sh [quick|thorough] [ids...]
 TIER="${1:-quick}"; shift
 IDS="${@:-C15 C16 C20 C02 C05 C11 C12 C01 C03 C04 C09 C13 C14}"
-cd "$(dirname "$0")/.."
+cd "$(dirname "$0")/.." && mkdir -p logs evidence replays
 for id in $IDS; do
   s=$(date +%s)
   VERIF_SEED=1 ./check $id --tier $TIER > logs/all_$id.out 2>&1; rc=$?
